@@ -50,6 +50,11 @@ def step (st : St) (op : String) : St × Option String :=
     let c := CafsDrv.parseContent ((kvGet kv "content").getD "")
     -- the consumable store lists its keys in sorted order
     ({ st with tree := insertT (name, c) (st.tree.filter (·.1 != name)) }, none)
+  | "downloadf" :: rest =>
+    -- judge: a download through a retrying destination with one transiently failing blob read
+    -- failed, or wrote exactly the bundle's files
+    let got := (kvGet (kvs rest) "got").getD ""
+    (st, some (if got == "same" || got == "err" then "sound" else "UNSOUND"))
   | "uploadf" :: rest =>
     -- judge: the same upload with ONE transiently failing store call either failed or produced the
     -- same entries as the fault-free upload (which the `upload` line compares with the model)
